@@ -377,17 +377,47 @@ class Impl:
             self.now_alt[len(self.ops) - 1] = (t0, t1)
         return raw
 
+    def _message_for(self, n, c, k, a, t, p):
+        """An application may keep one Message object per value and send it again after
+        changing a field.  Every other send for a (node, child, command, type) reuses the object
+        of the last successful send for it, mutated — unless the gateway still holds that object
+        (a parked command must not change under the gateway's feet: that would be the
+        application's doing, not the library's)."""
+        old = getattr(self, "_sent_objects", None)
+        if old is None:
+            old = self._sent_objects = {}
+            self._reuse_flip = {}
+        key = (n, c, k, t)
+        m = old.get(key)
+        flip = self._reuse_flip[key] = not self._reuse_flip.get(key, False)
+        if m is not None and not flip:
+            buf = getattr(self.gw, "_message_buffer", None)
+            held = []
+            for name in ("set_messages", "internal_messages"):
+                d = getattr(buf, name, None)
+                if isinstance(d, dict):
+                    held += list(d.values())
+            if not any(h is m for h in held):
+                try:
+                    m.node_id, m.child_id, m.command = int(n), int(c), int(k)
+                    m.ack, m.message_type, m.payload = a, int(t), p
+                    return m
+                except Exception:  # noqa: BLE001
+                    pass
+        return Message(n, c, k, a, t, p)
+
     def send(self, fields, buffered: bool = True, faults=()) -> dict:
         n, c, k, a, t, p = fields
         self._record(enc_oracle("", local_now()), "")
         self.tr.faults = list(faults)
         self.tr.writes = []
         before = snapshot(self.gw)
-        m = Message(n, c, k, a, t, p)
+        m = self._message_for(n, c, k, a, t, p)
         exc = None
         try:
             self.loop.run_until_complete(self.gw.send(m, message_buffer=buffered))
             outcome = "D"
+            self._sent_objects[(n, c, k, t)] = m
         except Exception as e:  # noqa: BLE001
             exc = e
             outcome = "E " + show_exn(e)
